@@ -539,9 +539,11 @@ func (e *env) doCancel(s Step, last *LastObs) {
 		wasStarted = j.Start != nil
 		wasFinished = j.Completed || j.Canceled
 	})
+	stopBefore := false
 	if known {
 		w.mu.Lock()
 		w.st.Ack[s.J-1].Req++
+		stopBefore = w.st.Stop[s.J-1].N > 0
 		w.mu.Unlock()
 	}
 	var err error
@@ -569,6 +571,7 @@ func (e *env) doCancel(s Step, last *LastObs) {
 		if a.N == 1 && !wasFinished {
 			a.At = w.nowMs()
 			a.WasStarted = wasStarted
+			a.StopBefore = stopBefore
 			for i, r := range w.st.Runs[s.J-1] {
 				allow := e.sc.Versions[w.jobs[s.J-1].ver-1].Tasks[i].Allow
 				a.OkAtAck[i] = r.Begun > 0 && !r.Open && (r.Outcome == "ok" || (r.Outcome == "fail" && allow))
